@@ -27,6 +27,7 @@ REQUIRED_THEOREMS = [
     "Acn.C07.ev_charge_le_requested", "Acn.C07.sim_delivered_le_requested_partial",
     "Acn.C07.schedule_length", "Acn.C07.sim_period_composition",
     "Acn.C07.sim_consequences_of_schedSafe", "Acn.C07.sortedSched_no_invalidRate", "Acn.C07.zero_sched_safe",
+    "Acn.C07.sim_consequences",
 ]
 BUDGET = {"quick": 900, "thorough": 6000, "search": 1200}
 TRUSTED = [
@@ -95,9 +96,11 @@ def _has_deadband(case):
 def _gen_stations(rng, exact, nmin=2, nmax=9):
     n = rng.randint(nmin, nmax)
     out = []
+    labels = list(range(n))
+    rng.shuffle(labels)          # registration order is NOT the alphabetical order of the ids
     for j in range(n):
         line = rng.choice(["AB", "BC", "CA"])
-        out.append({"id": f"st-{j}", "line": line, "evse": _gen_evse(rng, exact),
+        out.append({"id": f"st-{labels[j]}", "line": line, "evse": _gen_evse(rng, exact),
                     "volt": 256.0 if exact else rng.choice([208, 208, 208, 240, 277, 120, 200.5]),
                     "phase": 0.0 if exact else LINE_PHASE[line]})
     return out
@@ -242,7 +245,10 @@ def _gen_direct(rng, exact=False):
     for c in range(ncalls):
         order = list(range(len(cur)))
         rng.shuffle(order)
-        calls.append({"time": t + c, "evs": copy.deepcopy(cur), "order": order})
+        call = {"time": t + c, "evs": copy.deepcopy(cur), "order": order}
+        if c > 0 and cons and rng.random() < 0.4:
+            call["update"] = _gen_updates(rng, cons, t + c)       # between two schedule() calls
+        calls.append(call)
         nxt = []
         for ev in cur:
             if ev["departure"] <= t + c + 1 or rng.random() < 0.1:
@@ -298,7 +304,26 @@ def _gen_sim(rng):
     case = {"mode": "sim", "period": period, "stations": stations, "constraints": cons, "evs": evs,
             "ramp": {"up": 1, "down": 1, "inc": 1}}
     case.update(cfg)
+    r = rng.random()
+    if r < 0.35 and cons and cfg["algo"] != "uncontrolled":
+        # the network is changed UNDER THE SAME CONSTRAINT NAME mid-simulation (post_charging_update hook)
+        case["updates"] = _gen_updates(rng, cons, rng.randint(1, max(1, horizon - 2)))
+    elif r < 0.6 and cfg["algo"] != "uncontrolled":
+        # crash in period k, to_json -> from_json, resume under the same algorithm
+        case["roundtrip_at"] = rng.randint(1, max(1, horizon - 2))
     return case
+
+
+def _gen_updates(rng, cons, t):
+    ups = []
+    for c in rng.sample(cons, rng.randint(1, min(2, len(cons)))):
+        coef = dict(c["coef"])
+        if rng.random() < 0.4 and len(coef) > 1:
+            k = rng.choice(sorted(coef))
+            coef[k] = coef[k] * rng.choice([2.0, -1.0, 0.5])
+        ups.append({"t": t, "name": c["name"], "coef": coef,
+                    "limit": c["limit"] * rng.choice([0.3, 0.5, 0.8, 0.8, 1.5])})
+    return ups
 
 
 def corpus():
@@ -408,13 +433,47 @@ def _imports():
     return ChargingNetwork, Current, Simulator, EventQueue, Interface, PluginEvent, SA, UncontrolledCharging, SimpleRampdown
 
 
+def apply_updates(net, ups):
+    Current = _imports()[1]
+    for u in ups:
+        net.update_constraint(u["name"], Current(dict(u["coef"])), u["limit"])
+
+
+def _network_class(case):
+    ChargingNetwork = _imports()[0]
+    ups = case.get("updates")
+    if not ups:
+        return ChargingNetwork
+
+    class UpdNetwork(ChargingNetwork):
+        """applies the scheduled `update_constraint` calls from the public post_charging_update hook"""
+        _period = 0
+
+        def post_charging_update(self):
+            apply_updates(self, [u for u in ups if u["t"] == self._period])
+            self._period += 1
+
+    return UpdNetwork
+
+
 def build_network(case):
     ChargingNetwork, Current = _imports()[:2]
-    net = ChargingNetwork()
+    net = _network_class(case)()
     for st in case["stations"]:
         net.register_evse(I.make_evse(st["evse"], st["id"]), st["volt"], st["phase"])
     for c in case["constraints"]:
         net.add_constraint(Current(dict(c["coef"])), c["limit"], name=c["name"])
+    return net
+
+
+def network_from_matrix(case, inf):
+    """the network a call saw, rebuilt from its constraint matrix (after update_constraint calls)"""
+    ChargingNetwork, Current = _imports()[:2]
+    net = ChargingNetwork()
+    for st in case["stations"]:
+        net.register_evse(I.make_evse(st["evse"], st["id"]), st["volt"], st["phase"])
+    for r, (row, lim) in enumerate(zip(inf["M"], inf["lims"])):
+        net.add_constraint(Current({i: v for i, v in zip(inf["ids"], row) if v != 0}), lim, name=f"r{r}")
     return net
 
 
@@ -445,6 +504,8 @@ class _Recorder:
         self.net = net
         self.calls = []
         self.order_log = None
+        self.crash_at = case.get("roundtrip_at")
+        self.dynamic = bool(case.get("updates")) or any("update" in c for c in case.get("calls", []))
 
     def make(self):
         (_, _, _, _, _, _, SA, Unc, Ramp) = _imports()
@@ -483,7 +544,14 @@ class _Recorder:
     def record(self, algo, real_schedule, sessions):
         iface = algo.interface
         net = self.net
+        if self.crash_at is not None and int(iface.current_time) == self.crash_at:
+            self.crash_at = None
+            raise _Crash()
         call = {"time": int(iface.current_time), "sessions": [_sess_obs(s) for s in sessions]}
+        if self.dynamic:
+            info = iface.infrastructure_info()
+            call["net"] = {"M": [[float(x) for x in row] for row in info.constraint_matrix],
+                           "lims": [float(x) for x in info.constraint_limits]}
         est = getattr(algo, "max_rate_estimator", None)
         prev = []
         if est is not None:
@@ -523,6 +591,10 @@ class _Captured(Exception):
     pass
 
 
+class _Crash(Exception):
+    """stands for any crash of the scheduler; the simulator is then serialised and resumed"""
+
+
 def infra_obs(iface):
     info = iface.infrastructure_info()
     ph = np.deg2rad(info.phases)
@@ -549,6 +621,8 @@ def _run_direct(case):
     ids = net.station_ids
     for call in case["calls"]:
         t = call["time"]
+        if call.get("update"):
+            apply_updates(net, call["update"])
         for evse in net._EVSEs.values():
             if evse.ev is not None:
                 evse.unplug()
@@ -598,7 +672,21 @@ def _run_sim(case):
     with warnings.catch_warnings(record=True) as wlist:
         warnings.simplefilter("always")
         try:
-            sim.run()
+            try:
+                sim.run()
+            except _Crash:
+                js = sim.to_json()
+                sim = Simulator.from_json(js)
+                rec.net = sim.network
+                sim.update_scheduler(algo)
+                obs["roundtrip"] = True
+                by_id = dict(sim.ev_history)
+                for _, ev in sim.event_queue.queue:
+                    if getattr(ev, "ev", None) is not None:
+                        by_id.setdefault(ev.ev.session_id, ev.ev)
+                sim.run()
+                by_id.update(sim.ev_history)
+                evs = [by_id.get(e["session"], old) for e, old in zip(case["evs"], evs)]
         except _Captured as e:
             err = "scheduler:" + str(e)
         except Exception as e:  # noqa
@@ -632,7 +720,10 @@ def _infra_wire(inf):
 def model_request(case, obs):
     calls = []
     for c in obs["calls"]:
-        calls.append({"time": c["time"], "prev": [[k, f2b(p), f2b(r)] for k, p, r in c["prev"]],
+        extra = {}
+        if "net" in c:
+            extra["net"] = {"M": [[f2b(x) for x in r] for r in c["net"]["M"]], "lims": [f2b(x) for x in c["net"]["lims"]]}
+        calls.append({**extra, "time": c["time"], "prev": [[k, f2b(p), f2b(r)] for k, p, r in c["prev"]],
                       "sessions": [{"station": s["station"], "session": s["session"], "arrival": s["arrival"],
                                     "est": s["est"], "remaining_time": s["remaining_time"],
                                     "requested": f2b(s["requested"]), "delivered": f2b(s["delivered"]),
@@ -640,7 +731,7 @@ def model_request(case, obs):
     req = {"algo": case["algo"], "sort": case["sort"], "uninterrupted": case["uninterrupted"],
            "estimate": case["estimate"], "inc": f2b(case["inc"]), "period": f2b(case["period"]),
            "ramp": {k: f2b(v) for k, v in case["ramp"].items()}, "infra": _infra_wire(obs["infra"]), "calls": calls}
-    if case["mode"] == "sim" and not case["estimate"]:
+    if case["mode"] == "sim" and not case["estimate"] and not case.get("updates"):
         # the COMPOSITION: shared simulator model with the modelled algorithm as its scheduler parameter
         req["simrun"] = {"stations": [{"id": st["id"], "kind": I.kind_wire(st["evse"]), "V": f2b(st["volt"])}
                                       for st in case["stations"]],
@@ -910,5 +1001,15 @@ def features(case, obs):
                 out.append("estimator_has_history")
     if obs["mode"] == "sim":
         out.append("sim_err:" + str(obs["sim_err"])[:30])
-        out.append("simrun_through_adapter:" + str(not case["estimate"]))
+        out.append("simrun_through_adapter:" + str(not case["estimate"] and not case.get("updates")))
+        if case.get("updates"):
+            out.append("constraint_updated_mid_simulation")
+        if obs.get("roundtrip"):
+            out.append("json_roundtrip_resumed")
+    if any("update" in c for c in case.get("calls", [])):
+        out.append("constraint_updated_between_calls")
+    ids_ = [st["id"] for st in case["stations"]]
+    out.append("registration_order:" + ("alphabetical" if ids_ == sorted(ids_) else "non_alphabetical"))
+    if True:
+        pass
     return out
